@@ -3,6 +3,7 @@ from gen_util import *
 import core, os, subprocess, re, time
 PID = "C10"
 DRIVER = "drv_ct"
+EXTRA_PER_CONFIG = True           # thorough tier: the memcheck run is repeated at -O0 / -O3 / clang
 DRIVER_FLAGS = ("-g",)
 RULE = ("constant_time_equals (3 forms), get_hmac (2 forms), streaming HmacContext incl. re-initialisation of the same object, PBKDF2 vector and caller-buffer forms (>= 2 iterations), "
         "pepper, HKDF extract / expand / key-iv, run natively (result vs model) AND under valgrind memcheck with every secret byte marked undefined: any conditional jump or address depending on an "
@@ -78,7 +79,7 @@ def extra(ctx):
                 case = part[cur] if 0 <= cur < len(part) else "?"
                 if nerr <= 4:
                     out.append(("memcheck", "secret-dependent branch or address (memcheck: use of an undefined value) in %s" % sig,
-                                dict(key="memcheck %s %s" % (case.split()[0], sig[:60]), cases=[dict(case=case)], implementation=block[:1200], build="valgrind memcheck, secrets marked undefined, -O2")))
+                                dict(key="memcheck %s %s" % (case.split()[0], sig[:60]), cases=[dict(case=case)], implementation=block[:1200], build="valgrind memcheck, secrets marked undefined, " + ctx["config"]["label"])))
     ctx["extra_cov"].update(dict(memcheck_cases=n, memcheck_errors=nerr, memcheck_wall_s=round(time.monotonic() - t0, 1), memcheck_cmd="valgrind -q --error-exitcode=97 drv_ct <cases>"))
     return out
 
